@@ -37,6 +37,7 @@ def run(tier):
                 c["no-witness-candidate"] += 1
     outs = drv.batch(reqs)
     samples = []
+    undecided = []
     for o, (t, e, g) in zip(outs, meta):
         b = e["bounds"]
         if not o.startswith("ok"):
@@ -56,7 +57,38 @@ def run(tier):
             if len(samples) < 4:
                 samples.append({"block": " ".join(e["plain"]), "bounds": b, "witness": g["ids"], "peak": peak})
         else:
-            c["undecided:witness-outside-bounds(len=%s,stack=%s)" % (fits_len, fits_stk)] += 1
+            undecided.append((t, e))
+    # small specifications whose witness does not fit are decided exhaustively: every id sequence up to init_progr_len
+    import itertools
+    ereqs, emeta = [], []
+    for n, (t, e) in enumerate(undecided):
+        b = e["bounds"]
+        b0, sk = b.get("init_progr_len") or 0, b.get("max_sk_sz") or 0
+        ids = [u[0] for u in e["uinstrs"]]
+        k = max(1, min(sk, 16))
+        vocab = ids + ["POP"] + ["DUP%d" % i for i in range(1, k + 1)] + ["SWAP%d" % i for i in range(1, k + 1)]
+        if b0 > 5 or len(vocab) ** b0 > (30000 if tier == "quick" else 300000):
+            c["undecided:witness-outside-bounds-and-too-large-to-enumerate"] += 1
+            continue
+        for L in range(0, b0 + 1):
+            for seq in itertools.product(vocab, repeat=L):
+                ereqs.append("REALIZES\t%s\t%s" % ("\t".join(e["spec"]), ",".join(seq)))
+                emeta.append(n)
+    feasible = set()
+    for o, n in zip(drv.batch(ereqs), emeta):
+        if o.startswith("ok") and int(o[3:]) <= (undecided[n][1]["bounds"].get("max_sk_sz") or 0):
+            feasible.add(n)
+    c["sequences-enumerated"] = len(ereqs)
+    for n in set(emeta):
+        t, e = undecided[n]
+        if n in feasible:
+            c["bounds-feasible-by-enumeration"] += 1
+        else:
+            b = e["bounds"]
+            violations.append({"kind": "bounds-admit-no-realizing-sequence", "input": " ".join(e["plain"]), "options": t["opts"],
+                               "what": "no instruction sequence of length <= init_progr_len=%s with stack <= max_sk_sz=%s realizes the specification of %s "
+                                       "(%s); exhaustive over its ids and DUP/SWAP/POP" % (b.get("init_progr_len"), b.get("max_sk_sz"), " ".join(e["plain"]), t["opts"]),
+                               "spec": e["spec"]})
     cov = {"programs": c["specs"], "disagreements_checked": c["witnesses"], "evaluations": c["specs"],
            "distinct_nontrivial": c["witnesses"], "obligations": po["obligations"], "discharged": po["discharged"],
            "rule": "specifications from the real front end; the greedy result, once accepted by Spec.realizes, is the witness: "
